@@ -136,6 +136,10 @@ func BatchIsValidMaps(
 				return err
 			}
 
+			if mh := m.Manifest().Height(); mh != height {
+				return util.ErrInvalid.Errorf("unexpected blockmap height; expected %d, but %d", height, mh)
+			}
+
 			if err := func() error {
 				validateLock.Lock()
 				defer validateLock.Unlock()
